@@ -21,7 +21,7 @@ RULE = ('for each result kind (equal, approx-equal, Student, Bonferroni, Holm-Bo
         'representation by TableRepresenter / FullTableRepresenter / PlotRepresenter / FullRepresenter at each of the 6 verbosities, '
         'Rst.format_result at each verbosity, fingerprint(test), copy.deepcopy, pickle round trip}; the deep snapshot and the verdict must '
         'stay equal to the initial ones after every step (so the state graph has exactly one state per result); additionally every '
-        'ordered pair (op1, op2) is applied to a fresh result; evaluate() twice gives equal snapshots; non-trivial = every (result, '
+        'ordered pair (op1, op2) is applied to a fresh result; evaluate() twice gives equal snapshots and leaves the test and its datasets equal to a never-evaluated twin; non-trivial = every (result, '
         'operation sequence) whose operation renders or serialises the result')
 ASSUMPTIONS = ['the snapshot sees everything reachable through __dict__ / __slots__, mapping items and array bytes; state hidden in C extensions or module globals is only seen through the pair exploration',
                'plot representation = construction of the plot templates and of the MplPlot wrapper (pixels are not rendered)']
